@@ -350,9 +350,12 @@ class Worker:
         body = render(q['req']['doc'], self.world, xmldecl=q['req'].get('unicode_decl', False))
         ctype = 'text/xml; charset=utf-8'
         if q['req'].get('multipart'):
+            # the attachment is named by its Content-ID, or ('cloc') by its Content-Location with an empty Content-ID:
+            # the two branches of collapse_swa that join an attachment into the envelope
+            ident = b'Content-ID: <>\r\nContent-Location: att1' if q['req']['multipart'] == 'cloc' else b'Content-ID: <att1>'
             body = (b'--BOUND\r\nContent-Type: text/xml; charset=utf-8\r\nContent-ID: <root>\r\n\r\n' + body +
-                    b'\r\n--BOUND\r\nContent-Type: application/octet-stream\r\nContent-Transfer-Encoding: base64\r\n'
-                    b'Content-ID: <att1>\r\n\r\nQUJD\r\n--BOUND--\r\n')
+                    b'\r\n--BOUND\r\nContent-Type: application/octet-stream\r\nContent-Transfer-Encoding: base64\r\n' +
+                    ident + b'\r\n\r\nQUJD\r\n--BOUND--\r\n')
             ctype = 'multipart/related; boundary="BOUND"; start="<root>"; type="text/xml"'
         return body, ctype
 
@@ -957,6 +960,22 @@ class SiteScan:
             return 'fromKwargs'
         if is_xmlparser_ctor(m, expr):
             return 'custom'
+        if isinstance(expr, ast.Call) and isinstance(expr.func, ast.Attribute) and isinstance(expr.func.value, ast.Name) \
+                and expr.func.value.id == 'self' and depth < 6:
+            # a method of the same class or of a base class that returns the parser
+            cls = self.live_class(m, qual)
+            meth = getattr(cls, expr.func.attr, None) if cls is not None else None
+            try:
+                rel = os.path.relpath(os.path.realpath(inspect.getsourcefile(meth)), os.path.realpath(self.repo))
+                mq = meth.__qualname__
+                mm = self.mods[rel]
+                rets = [n.value for n in ast.walk(mm.funcs[mq]) if isinstance(n, ast.Return)]
+                kinds = {self.classify_parser(mm, mq, r, depth + 1) for r in rets}
+                if len(kinds) == 1:
+                    return kinds.pop()
+            except Exception:
+                pass
+            return 'custom'
         if isinstance(expr, ast.Attribute) and isinstance(expr.value, ast.Name) and expr.value.id == 'self':
             cls = self.live_class(m, qual)
             if cls is not None:
@@ -1116,6 +1135,202 @@ class SiteScan:
                     return True
         return False
 
+# ---------------------------------------------------------------------------- parse sites, by behaviour
+MARK = 'C17SITEPROBE'
+
+
+class SiteRecorder:
+    """While installed, every construction of lxml.etree.XMLParser and every call of an lxml.etree parse function
+    made from spyne code is recorded: (constructor keywords, which parser object the parse call received, caller).
+    Nothing about the calls is changed."""
+
+    FUNCS = ['fromstring', 'XML', 'XMLID', 'parse', 'fromstringlist', 'iterparse', 'XMLDTDID']
+
+    def __init__(self):
+        from lxml import etree
+        self.etree = etree
+        self.calls = []
+        self.parsers = []
+        self.saved = []
+        self.root = os.path.join(os.path.realpath(core.REPO), 'spyne') + os.sep
+        rec = self
+        Orig = etree.XMLParser
+
+        class RecParser(Orig):
+            def __init__(self, *a, **kw):
+                self._c17 = (tuple(a), dict(kw))
+                rec.parsers.append(id(self))
+                Orig.__init__(self, *a, **kw)
+        self.RecParser = RecParser
+
+    def _wrap(self, name, orig):
+        rec = self
+        pos = PARSER_ARG_POS.get(name, 1)
+
+        def wrapper(*a, **kw):
+            fr = sys._getframe(1)
+            if not os.path.realpath(fr.f_code.co_filename).startswith(rec.root):
+                return orig(*a, **kw)       # lxml calling itself (XMLID -> XML), or this harness
+            parser = kw.get('parser', a[pos] if len(a) > pos else None)
+            data = a[0] if a else None
+            if isinstance(data, (list, tuple)):
+                data = b''.join(x if isinstance(x, bytes) else x.encode() for x in data)
+            entry = {'call': name, 'file': fr.f_code.co_filename, 'line': fr.f_lineno, 'func': fr.f_code.co_name,
+                     'parser': parser, 'request': isinstance(data, (bytes, str)) and
+                     (MARK in data if isinstance(data, str) else MARK.encode() in data), 'raised': None}
+            rec.calls.append(entry)
+            try:
+                return orig(*a, **kw)
+            except BaseException as e:
+                entry['raised'] = type(e).__name__
+                raise
+        wrapper._c17_orig = orig
+        return wrapper
+
+    def __enter__(self):
+        etree = self.etree
+        repl = {id(etree.XMLParser): self.RecParser}
+        self.saved.append((etree, 'XMLParser', etree.XMLParser))
+        for n in self.FUNCS:
+            if hasattr(etree, n):
+                o = getattr(etree, n)
+                repl[id(o)] = self._wrap(n, o)
+                self.saved.append((etree, n, o))
+        # names imported into spyne modules (`from lxml.etree import XMLParser, fromstring`)
+        for mn, mod in list(sys.modules.items()):
+            if mod is None or not (mn == 'spyne' or mn.startswith('spyne.')):
+                continue
+            for k, v in list(vars(mod).items()):
+                if id(v) in repl and not isinstance(v, type(sys)):
+                    self.saved.append((mod, k, v))
+        for obj, name, orig in self.saved:
+            setattr(obj, name, repl[id(orig)])
+        return self
+
+    def __exit__(self, *exc):
+        for obj, name, orig in self.saved:
+            setattr(obj, name, orig)
+        return False
+
+    def classify(self, parser, prot):
+        if parser is None:
+            return 'lxmlDefault'
+        c = getattr(parser, '_c17', None)
+        if c is None:
+            return 'custom'                 # a parser object built elsewhere (module constant, cached before the probe)
+        if not c[0] and c[1] == dict(prot.parser_kwargs):
+            return 'fromKwargs'
+        if not c[0] and not c[1]:
+            return 'lxmlDefault'            # XMLParser(): lxml's defaults
+        return 'custom'
+
+
+def drive_request(app, tr, body, ctype):
+    """one request through the real stack -> fault code of the request (or None), class of an escaping exception"""
+    import io
+    from spyne import MethodContext
+    from spyne.server import ServerBase
+    from spyne.server.wsgi import WsgiApplication
+    fault, crash = None, None
+    try:
+        if tr == 'server':
+            srv = ServerBase(app)
+            ctx = MethodContext(srv, MethodContext.SERVER)
+            ctx.in_string = [body]
+            for c in srv.generate_contexts(ctx):
+                if c.in_error is not None:
+                    fault = str(getattr(c.in_error, 'faultcode', type(c.in_error).__name__))
+                else:
+                    srv.get_in_object(c)
+        else:
+            w = WsgiApplication(app)
+            env = {'REQUEST_METHOD': 'POST', 'PATH_INFO': '/', 'SCRIPT_NAME': '', 'QUERY_STRING': '',
+                   'SERVER_NAME': 'c17', 'SERVER_PORT': '80', 'CONTENT_TYPE': ctype, 'CONTENT_LENGTH': str(len(body)),
+                   'wsgi.input': io.BytesIO(body), 'wsgi.url_scheme': 'http', 'wsgi.errors': io.StringIO(),
+                   'wsgi.version': (1, 0), 'wsgi.multithread': False, 'wsgi.multiprocess': False, 'wsgi.run_once': False}
+            faults = []
+            w.event_manager.add_listener('wsgi_exception', lambda c: faults.append(
+                str(getattr(c.out_error, 'faultcode', type(c.out_error).__name__))))
+            b''.join(w(env, lambda s_, h, e=None: None))
+            fault = faults[0] if faults else None
+    except Exception as e:
+        crash = type(e).__name__
+    return fault, crash
+
+
+def measure_sites_behaviour():
+    """the call-site facts, derived from what actually happens while requests are served: which parse calls receive
+    the request, which parser object each of them is given and what keywords that object was constructed with,
+    whether a fresh parser is made per request, and what becomes of an XMLSyntaxError at each stage"""
+    global _SVC
+    if _SVC is None:
+        _SVC = build_stack()
+    Application, Svc, _ = _SVC
+    classes = proto_classes()
+    world = World('/nonexistent', 'probe')
+    fake = type('W', (), {'world': world})()
+    repo = os.path.realpath(core.REPO)
+    good_toks = [T(MARK)]
+    ent = dtd([(1, INT(lit('IENT1')))])
+    sites, fresh = {}, True
+    catches = {}
+
+    def note_catch(role, fault, crash):
+        ok = fault == 'Client.XMLSyntaxError' and crash is None
+        catches[role] = catches.get(role, True) and ok
+
+    with SiteRecorder() as rec:
+        for name, cls in classes.items():
+            scen = [('server', False, False), ('wsgi', False, False)]
+            if name != 'xml':
+                scen += [('wsgi', True, False), ('wsgi', 'cloc', False), ('wsgi', False, True)]
+            for tr, mp, ud in scen:
+                prot = cls()
+                app = Application([Svc], TNS, in_protocol=prot, out_protocol=cls())
+
+                def send(d, toks, broken=False):
+                    q = {'req': {'doc': request_doc(name, d, world, text=('s', toks)), 'multipart': mp, 'unicode_decl': ud}}
+                    body, ctype = Worker.request_bytes(fake, q)
+                    if broken:
+                        body = body.replace(b'</t:s>', b'</t:broken>', 1)
+                    del rec.calls[:]
+                    fc = drive_request(app, tr, body, ctype)
+                    return [c for c in rec.calls if c['request']], fc
+                ids = []
+                for rep in range(2):
+                    calls, _ = send(None, good_toks)
+                    prev_valueerror = False
+                    for i, c in enumerate(calls):
+                        if name == 'xml':
+                            role = 'xmlMain' if i == 0 else 'xmlFallback'
+                        elif mp and i < len(calls) - 1:
+                            role = 'mimeJoin'
+                        else:
+                            role = 'soapFallback' if prev_valueerror else 'soapMain'
+                        prev_valueerror = c['raised'] == 'ValueError'
+                        kind = rec.classify(c['parser'], prot)
+                        rel = os.path.relpath(os.path.realpath(c['file']), repo)
+                        key = (rel, c['line'], c['call'], role)
+                        order = ['fromKwargs', 'missingAttr', 'custom', 'lxmlDefault']
+                        old = sites.get(key, 'fromKwargs')
+                        sites[key] = kind if order.index(kind) > order.index(old) else old
+                        if c['parser'] is not None:
+                            ids.append((rep, id(c['parser'])))
+                    if not calls:
+                        sites[('?', 0, 'none', 'xmlMain' if name == 'xml' else 'soapMain')] = 'custom'
+                fresh = fresh and not ({i for r, i in ids if r == 0} & {i for r, i in ids if r == 1})
+                # what becomes of an XMLSyntaxError: in the (first) parse of the request ...
+                main = 'xmlMain' if name == 'xml' else 'soapFallback' if ud else 'soapMain'
+                _, (fault, crash) = send(None, good_toks, broken=True)
+                note_catch('mimeJoin' if mp else main, fault, crash)
+                if mp:
+                    # ... and in the parse that follows the re-serialisation (a kept reference is undeclared there)
+                    _, (fault, crash) = send(ent, [T(MARK), ref(1)])
+                    note_catch(main, fault, crash)
+    out = [{'file': k[0], 'line': k[1], 'call': k[2], 'func': '', 'role': k[3], 'parser': v, 'catches': bool(catches.get(k[3], False))}
+           for k, v in sorted(sites.items())]
+    return out, fresh
+
 
 def measure_facts(ctx):
     import logging
@@ -1157,7 +1372,12 @@ def measure_facts(ctx):
         per_req = per_req and r1 == 'Client.XMLSyntaxError' and r2 == 'ok' and r3 == 'Client.XMLSyntaxError'
     f['parserPerRequest'] = per_req
     scan = SiteScan(core.REPO)
-    f['sites'], f['xincludeCalls'], f['roots'] = scan.sites()
+    ast_sites, f['xincludeCalls'], f['roots'] = scan.sites()
+    # the call-site facts come from behaviour; the ast pass contributes the off-path listing and a cross-check
+    beh, fresh = measure_sites_behaviour()
+    f['parserPerRequest'] = bool(f['parserPerRequest'] and fresh)
+    f['sites'] = beh + [s_ for s_ in ast_sites if s_['role'] == 'offPath']
+    f['astSites'] = [s_ for s_ in ast_sites if s_['role'] != 'offPath']
     f['kwWrites'] = scan.kw_writes()
     f['post'], f['liveAt'] = {}, {}
     for name, cls in classes.items():
@@ -1577,8 +1797,12 @@ def request_corpus(ctx, lib, world):
                                   attr=(pos, pieces) if kind == 'attr' else None,
                                   omit_tag=label.startswith('ext-subset-attlist'))
                 exp = 'reject' if expect == 'reject' or (expect == 'reject-attr' and kind == 'attr') else 'any'
-                for tr, mp in (('server', False), ('wsgi', False)) + ((('wsgi', True),) if proto != 'xml' else ()):
+                for tr, mp in (('server', False), ('wsgi', False)) + ((('wsgi', True), ('wsgi', 'cloc')) if proto != 'xml' else ()):
+                    if mp == 'cloc' and pos not in VALIDATED_POS:
+                        continue
                     for val in VALIDATORS:
+                        if mp == 'cloc' and val is not None:
+                            continue
                         # every position without a validator; the configuration paths through set_validator /
                         # set_app (soft, lxml) at a representative subset of the positions
                         if val is not None and pos not in VALIDATED_POS:
@@ -1707,6 +1931,12 @@ def run(ctx):
             want = 'arg' if k == 'resolve_entities' else ('const', True) if k == 'remove_comments' else ('arg', k)
             if f['plumb'][p][k] != want:
                 ctx.hit('fact-bad:plumb:%s:%s' % (p, k))
+    ctx.cov['facts']['ast_crosscheck_sites'] = f['astSites']
+    seen_roles = {(s_['role'], s_['parser']) for s_ in f['sites'] if s_['role'] != 'offPath'}
+    for s_ in f['astSites']:
+        # informative only: the ast reading of a site differs from what was observed (or the site was never exercised)
+        if (s_['role'], s_['parser']) not in seen_roles:
+            ctx.hit('ast-crosscheck:unobserved-or-different:%s:%s' % (s_['role'], s_['parser']))
     for s_ in f['sites']:
         if s_['role'] != 'offPath' and (s_['parser'] not in ('fromKwargs', 'missingAttr') or not s_['catches']):
             ctx.hit('fact-bad:site:%s:%s:%s' % (s_['role'], s_['parser'], 'caught' if s_['catches'] else 'uncaught'))
@@ -1804,6 +2034,8 @@ def _run_cases(ctx, f, lib, pool):
     for mq in MQ:
         mq.pop('validator', None) if mq.get('op') == 'handle' else None
         mq.pop('history', None)
+        if mq.get('op') == 'handle' and mq['req'].get('multipart') == 'cloc':
+            mq['req'] = dict(mq['req'], multipart=True)
     uniq, order = {}, []
     for mq in MQ:
         k_ = core.canon(mq)
@@ -1871,11 +2103,11 @@ def _run_cases(ctx, f, lib, pool):
             continue
         # ---------------- handle
         vtag = '/validator=%s' % q['validator'] if q.get('validator') else ''
-        desc = '%s/%s%s%s %s@%s' % (q['proto'], q['tr'], '/multipart' if q['req']['multipart'] else '', vtag, meta['payload'], meta['pos'])
+        desc = '%s/%s%s%s %s@%s' % (q['proto'], q['tr'], ('/multipart' + ('-cloc' if q['req']['multipart'] == 'cloc' else '')) if q['req']['multipart'] else '', vtag, meta['payload'], meta['pos'])
         ctx.case({'op': 'handle', 'proto': q['proto'], 'tr': q['tr'], 'mp': q['req']['multipart'], 'ud': q['req']['unicode_decl'], 'val': q.get('validator'),
                   'kw': short_kw(q['kw']), 'payload': meta['payload'], 'pos': meta['pos'], 'kind': meta['kind']})
         ctx.hit('op:handle')
-        ctx.hit('proto:%s/%s%s' % (q['proto'], q['tr'], '/multipart' if q['req']['multipart'] else ''))
+        ctx.hit('proto:%s/%s%s' % (q['proto'], q['tr'], ('/multipart' + ('-cloc' if q['req']['multipart'] == 'cloc' else '')) if q['req']['multipart'] else ''))
         ctx.hit('payload:' + meta['payload'].split(':')[0])
         ctx.hit('validator:%s' % (q.get('validator') or 'none'))
         impl = impl_handle_canon(r, world)
@@ -1893,7 +2125,7 @@ def _run_cases(ctx, f, lib, pool):
         # ---------------- T3: the property itself, default settings
         ctx.cov['traces_validated_against_impl'] += 1
         rep = {'query': q, 'case': desc, 'observed': {k: v for k, v in r.items() if k != 'seen'}}
-        site = '%s:%s%s%s' % (q['proto'], q['tr'], ':multipart' if q['req']['multipart'] else '',
+        site = '%s:%s%s%s' % (q['proto'], q['tr'], (':multipart' + ('-cloc' if q['req']['multipart'] == 'cloc' else '')) if q['req']['multipart'] else '',
                               ':after-unsafe-sibling' if q.get('history') else '') + \
             (':validator=%s' % q['validator'] if q.get('validator') else '')
         if r.get('dead') or r.get('worker_error'):
@@ -2011,7 +2243,10 @@ def replay(ctx, obj):
             print(body[:1500].decode('utf-8', 'replace') + ('...' if len(body) > 1500 else ''))
         print('implementation:', show({k: v for k, v in r.items() if k != 'seen'}))
         try:
-            m = model_limited(ctx, [dict(q, env=env_for(w, f['lib']), kw=DEFAULT_KW if q['kw'] == 'defaults' else q['kw'])])[0]
+            mq = dict(q, env=env_for(w, f['lib']), kw=DEFAULT_KW if q['kw'] == 'defaults' else q['kw'])
+            if mq.get('op') == 'handle':
+                mq['req'] = dict(mq['req'], multipart=bool(mq['req'].get('multipart')))
+            m = model_limited(ctx, [mq])[0]
             print('model         :', show(m))
         except Exception as e:
             print('model         : (not available: %s)' % e)
